@@ -286,6 +286,24 @@ Qed.
 Lemma rm_of_nil c l : l = [] -> rm c l = [].
 Proof. now intros ->. Qed.
 
+Lemma inv1_accept s c l : Inv1 s -> active s && lopen s && is_none (busy s) = true -> Inv1 (accept K c l s).
+Proof.
+  intros I Heqb.
+    apply andb_prop in Heqb. destruct Heqb as [Hb Hn]. apply andb_prop in Hb. destruct Hb as [Ha Hl].
+  destruct I as [A B C D E F].
+  assert (Hc : closed s = false) by (rewrite A, Ha; reflexivity).
+  unfold accept. destruct (kind K) eqn:Ek.
+  + constructor; simp_state; rewrite ?Ek; auto; rewrite ?Hc; try discriminate.
+  + assert (P1 : Inv1 (pool_register c (with_backlog (with_accepted (with_clients (set_conn s c (k_stage (conns s c) Own)) (clients s ++ [c])) (accepted s ++ [c])) l))).
+    { constructor; simp_state; rewrite ?Ek; auto; rewrite ?Hc; try discriminate; congruence. }
+    match goal with |- context [if (gone ?k && ?m) then _ else _] => destruct (gone k && m) end; [constructor; simp_state; rewrite ?Ek; auto; rewrite ?Hc; try discriminate; congruence|].
+    destruct (has_auth K); [|exact P1]. destruct (abeh (conns s c)); [exact P1| |].
+    * constructor; simp_state; rewrite ?Ek; auto; rewrite ?Hc; try discriminate; congruence.
+    * constructor; simp_state; rewrite ?Ek; auto; rewrite ?Hc; try discriminate; try congruence; try (intros _; now right).
+  + constructor; simp_state; rewrite ?Ek; auto; rewrite ?Hc; try discriminate; try (intros _; now left).
+  + destruct (fork_parent_keeps (fx K)); constructor; simp_state; rewrite ?Ek; auto; rewrite ?Hc; try discriminate.
+Qed.
+
 Lemma inv1_step s e s' : Inv1 s -> step e s = Some s' -> Inv1 s'.
 Proof.
   intros I H.
@@ -306,22 +324,15 @@ Proof.
     assert (Hc : closed s = false) by (rewrite A, <- B, Hl; reflexivity).
     constructor; simp_state; auto; rewrite Hc; discriminate.
   - (* accept *)
-    apply andb_prop in Heqb. destruct Heqb as [Hb Hn]. apply andb_prop in Hb. destruct Hb as [Ha Hl].
-    destruct I as [A B C D E F].
-    assert (Hc : closed s = false) by (rewrite A, Ha; reflexivity).
-    unfold accept. destruct (kind K) eqn:Ek.
-    + constructor; simp_state; rewrite ?Ek; auto; rewrite ?Hc; try discriminate.
-    + assert (P1 : Inv1 (pool_register c (with_backlog (with_accepted (with_clients (set_conn s c (k_stage (conns s c) Own)) (clients s ++ [c])) (accepted s ++ [c])) l))).
-      { constructor; simp_state; rewrite ?Ek; auto; rewrite ?Hc; try discriminate; congruence. }
-      match goal with |- context [if (gone ?k && ?m) then _ else _] => destruct (gone k && m) end; [constructor; simp_state; rewrite ?Ek; auto; rewrite ?Hc; try discriminate; congruence|].
-      destruct (has_auth K); [|exact P1]. destruct (abeh (conns s c)); [exact P1| |].
-      * constructor; simp_state; rewrite ?Ek; auto; rewrite ?Hc; try discriminate; congruence.
-      * constructor; simp_state; rewrite ?Ek; auto; rewrite ?Hc; try discriminate; try congruence; try (intros _; now right).
-    + constructor; simp_state; rewrite ?Ek; auto; rewrite ?Hc; try discriminate; try (intros _; now left).
-    + destruct (fork_parent_keeps (fx K)); constructor; simp_state; rewrite ?Ek; auto; rewrite ?Hc; try discriminate.
+    apply inv1_accept; assumption.
   - (* the pool's inline authenticator ends *)
     destruct I as [A B C D E F]. constructor; simp_state; auto; try congruence.
     intros Hc. destruct (C Hc) as [e1 e2]. rewrite e1. destruct (pool_fail_discards (fx K)); auto.
+  - (* no worker could be started *)
+    match goal with Hb : _ && spawns K = true |- _ => apply andb_prop in Hb; destruct Hb as [Hb _] end.
+    match goal with |- Inv1 (spawn_fail K ?c ?l s) =>
+      assert (I1 : Inv1 (finish_own K c (accept K c l s))) by (apply inv1_finish_own, inv1_accept; assumption) end.
+    unfold spawn_fail. destruct (accept_survives_spawn_failure (fx K)); [exact I1|apply inv1_server_close; exact I1].
 Qed.
 
 
@@ -570,10 +581,33 @@ Proof.
   intros Hq. unfold served_conn. destruct (serve_req K c _ _ q) as [[v' tb'] r]. rewrite Hq. apply fin_ok_close.
 Qed.
 
+(* what accept leaves at the accepted connection when the server starts a worker of its own per client *)
+Lemma accept_spawns_conn s c rest : spawns K = true -> conns (accept K c rest s) c = k_stage (conns s c) Own.
+Proof.
+  unfold spawns, accept. destruct (kind K); try discriminate; intros _; [|destruct (fork_parent_keeps (fx K))];
+  cbn; now rewrite upd_same.
+Qed.
+Lemma inv2_spawn_fail s c rest : spawns K = true -> backlog s = c :: rest -> is_none (busy s) = true -> Inv2 s -> Inv2 (spawn_fail K c rest s).
+Proof.
+  intros Hsp Hb Hn I.
+  assert (Sc : authd (conns s c) = false).
+  { destruct I as [H _]. specialize (H c). unfold conn_ok in H. rewrite Hb in H. cbn in H. tauto. }
+  assert (I1 : Inv2 (finish_own K c (accept K c rest s))).
+  { apply inv2_finish_own.
+    - rewrite accept_spawns_conn by assumption. reflexivity.
+    - rewrite accept_spawns_conn by assumption. apply fin_ok_unauth. cbn. rewrite Sc. reflexivity.
+    - apply inv2_accept; assumption. }
+  unfold spawn_fail. destruct (accept_survives_spawn_failure (fx K)); [exact I1|apply inv2_server_close; exact I1].
+Qed.
+
 Lemma inv2_step s e s' : Inv2 s -> step e s = Some s' -> Inv2 s'.
 Proof.
   intros I H.
   step_cases H.
+  all: try (match goal with Hb : _ && spawns K = true |- _ =>
+              let Hsp := fresh "Hsp" in let Hn := fresh "Hn" in
+              apply andb_prop in Hb; destruct Hb as [Hb Hsp]; apply andb_prop in Hb; destruct Hb as [_ Hn];
+              apply inv2_spawn_fail; assumption end).
   all: try (apply inv2_server_close; assumption).
   all: try (apply inv2_connect; assumption).
   all: try (apply inv2_accept; [assumption| |assumption];
@@ -734,10 +768,16 @@ Proof.
   pose proof (held_set_nth x _ _ _ (Some (c, m)) Hw) as G. rewrite !slot_cnt_some in G. lia.
 Qed.
 
+Lemma inv3_spawn_fail s c rest : backlog s = c :: rest -> Inv2 s -> Inv3 s -> Inv3 (spawn_fail K c rest s).
+Proof.
+  intros Hb I2 I. unfold spawn_fail.
+  destruct (accept_survives_spawn_failure (fx K)); [|apply inv3_server_close]; apply inv3_finish_own, inv3_accept; assumption.
+Qed.
 Lemma inv3_step s e s' : Inv2 s -> Inv3 s -> step e s = Some s' -> Inv3 s'.
 Proof.
   intros I2 I H.
   step_cases H.
+  all: try (apply inv3_spawn_fail; assumption).
   all: try (apply inv3_server_close; assumption).
   all: try (apply inv3_accept; assumption).
   all: try (apply inv3_finish_own).
@@ -1028,6 +1068,8 @@ Proof.
   assert (Shape : accepted s = [] /\ True \/ exists c', accepted s = [c']).
   { destruct O as [[A B]|(c & A & _)]; [left; auto|right; eauto]. }
   step_cases H; try congruence.
+  all: try (exfalso; match goal with Hb : _ && spawns K = true |- _ =>
+              apply andb_prop in Hb; destruct Hb as [_ Hb]; unfold spawns in Hb; rewrite Ko in Hb; discriminate Hb end).
   all: try (eapply one_frame; [..|exact O]; simp_state; rewrite ?upd_same; try reflexivity; try tauto;
             intros x; simp_state; conn_at x c; cbn; rewrite ?serve_on_same, ?served_conn_stg, ?serve_on_other by assumption;
             try discriminate; auto; fail).
@@ -1154,7 +1196,7 @@ Qed.
 Definition subject (s : st) (e : event) : option cid :=
   match e with
   | EConnect c _ | ESend c _ | ELeave c _ | EWork c | EPoll c _ => Some c
-  | EAccept => hd_error (backlog s)
+  | EAccept | ESpawnFail => hd_error (backlog s)
   | EServe w => match nth_error (workers s) w with Some (Some (c, _)) => Some c | _ => None end
   | ETake _ | EClose | EAcceptFail => None
   end.
@@ -1175,13 +1217,19 @@ Qed.
 
 (* 1. whatever a client does -- and whatever the server does for it -- leaves every other connection's record untouched
       (the one-shot server is excluded: its worker's last step closes the server) *)
-Theorem noninterference s e s' : kind K <> OneShot -> e <> EClose -> e <> EAcceptFail -> step e s = Some s' ->
+Lemma spawn_fail_other c rest s x : kind K <> OneShot -> accept_survives_spawn_failure (fx K) = true -> x <> c ->
+  conns (spawn_fail K c rest s) x = conns s x.
+Proof. intros Nk Hf N. unfold spawn_fail. rewrite Hf, finish_own_other, accept_other by assumption. reflexivity. Qed.
+
+Theorem noninterference s e s' : kind K <> OneShot -> e <> EClose -> e <> EAcceptFail ->
+  (e = ESpawnFail -> accept_survives_spawn_failure (fx K) = true) -> step e s = Some s' ->
   forall x, subject s e <> Some x -> conns s' x = conns s x.
 Proof.
-  intros Nk Ne Ne2 H x Hx.
+  intros Nk Ne Ne2 Hsf H x Hx.
   step_cases H; try congruence; cbn [subject] in Hx;
   repeat match goal with E : nth_error _ _ = Some _ |- _ => rewrite E in Hx; clear E | E : backlog _ = _ |- _ => rewrite E in Hx; clear E end;
   cbn in Hx; try (assert (Nx : x <> c) by congruence).
+  all: try (rewrite spawn_fail_other by (first [assumption | apply Hsf; reflexivity]); reflexivity).
   all: simp_state; rewrite ?finish_own_other, ?drop_other, ?accept_other by assumption; simp_state;
        rewrite ?upd_other, ?serve_on_other by assumption; try reflexivity.
   all: try (rewrite finish_own_other by assumption; simp_state; rewrite ?upd_other, ?serve_on_other by assumption; reflexivity).
@@ -1219,13 +1267,17 @@ Proof.
   - apply Nat.eqb_neq in E. now rewrite serve_on_other.
 Qed.
 
+Lemma ep4_spawn_fail c rest t x : ep4 (conns (spawn_fail K c rest t) x) = ep4 (conns t x).
+Proof.
+  unfold spawn_fail. destruct (accept_survives_spawn_failure (fx K)); rewrite ?ep4_server_close, ep4_finish_own, ep4_accept; reflexivity.
+Qed.
 Theorem step_ep s e s' : step e s = Some s' ->
   forall x, ep4 (conns s' x) = ep4 (conns s x)
             \/ exists q rest, next_input (inb (conns s x)) = NReq q rest /\ ep4 (conns s' x) = ep4 (served_conn s x q rest).
 Proof.
   intros H x.
   step_cases H.
-  all: rewrite ?ep4_finish_own, ?ep4_drop, ?ep4_accept, ?ep4_server_close.
+  all: rewrite ?ep4_spawn_fail, ?ep4_finish_own, ?ep4_drop, ?ep4_accept, ?ep4_server_close.
   all: try (left; reflexivity).
   all: try (left; apply ep4_set_conn; unfold ep4; cbn; rewrite ?(proj1 (close_conn_ep _)); reflexivity).
   all: try (left; apply ep4_set_conn; rewrite ep4_close; reflexivity).
@@ -1347,36 +1399,57 @@ Proof.
 Qed.
 Lemma drop_closed c s : closed (drop c s) = closed s.
 Proof. rewrite drop_eq. destruct (mem c (fdmap s)); reflexivity. Qed.
-Lemma step_closed_same s e s' : kind K <> OneShot -> e <> EClose -> (e = EAcceptFail -> accept_survives_oserror (fx K) = true) ->
-  step e s = Some s' -> closed s' = closed s.
+(* the events that close the server: close() itself, and -- on a tree that does not survive them -- a failing accept() and a worker
+   that cannot be started *)
+Definition closing (e : event) : bool :=
+  match e with
+  | EClose => true
+  | EAcceptFail => negb (accept_survives_oserror (fx K))
+  | ESpawnFail => negb (accept_survives_spawn_failure (fx K))
+  | _ => false
+  end.
+Lemma spawn_fail_closed c rest s : kind K <> OneShot -> accept_survives_spawn_failure (fx K) = true ->
+  closed (spawn_fail K c rest s) = closed s.
 Proof.
-  intros Nk Ne Nf H. step_cases H; try congruence; rewrite ?accept_closed, ?drop_closed; simp_state; try reflexivity.
-  all: try (specialize (Nf eq_refl); congruence).
+  intros Nk Hf. unfold spawn_fail. rewrite Hf, finish_own_eq.
+  destruct (kind K) eqn:Ek; try congruence; unfold fo_core; cbn [closed with_clients set_conn with_conns]; apply accept_closed.
+Qed.
+Lemma step_closed_same s e s' : kind K <> OneShot -> closing e = false -> step e s = Some s' -> closed s' = closed s.
+Proof.
+  intros Nk Ce H. step_cases H; cbn [closing] in Ce; try discriminate Ce; rewrite ?accept_closed, ?drop_closed; simp_state; try reflexivity.
+  all: try (match goal with E : accept_survives_oserror (fx K) = false |- _ => rewrite E in Ce; discriminate Ce end).
+  all: try (apply spawn_fail_closed; [assumption|now apply negb_false_iff]).
   all: try (destruct (kind K); try congruence; simp_state; reflexivity).
   all: try (destruct (pool_fail_discards (fx K)); reflexivity).
 Qed.
-Lemma closed_only_by_close l s : kind K <> OneShot -> reach_by l s -> closed s = true ->
-  In EClose l \/ (accept_survives_oserror (fx K) = false /\ In EAcceptFail l).
+Lemma closed_only_by_closing l s : kind K <> OneShot -> reach_by l s -> closed s = true -> exists e, In e l /\ closing e = true.
 Proof.
-  intros Nk R. induction R; intros Hc; [discriminate|]. rewrite !in_app_iff.
-  assert (D : e = EClose \/ e <> EClose) by (destruct e; try (right; discriminate); left; reflexivity).
-  destruct D as [->|Ne]; [left; right; now left|].
-  assert (D2 : e = EAcceptFail \/ e <> EAcceptFail) by (destruct e; try (right; discriminate); left; reflexivity).
-  destruct (accept_survives_oserror (fx K)) eqn:Fa.
-  - destruct IHR as [A|[A _]]; [|left; left; exact A|discriminate].
-    rewrite <- (step_closed_same _ _ _ Nk Ne (fun _ => Fa) H). exact Hc.
-  - destruct D2 as [->|Ne2]; [right; split; [reflexivity|right; now left]|].
-    destruct IHR as [A|[_ A]]; [|left; left; exact A|right; split; [reflexivity|left; exact A]].
-    rewrite <- (step_closed_same _ _ _ Nk Ne (fun E => False_ind _ (Ne2 E)) H). exact Hc.
+  intros Nk R. induction R; intros Hc; [discriminate|].
+  destruct (closing e) eqn:Ce.
+  - exists e. split; [apply in_or_app; right; now left|exact Ce].
+  - rewrite (step_closed_same _ _ _ Nk Ce H) in Hc. destruct (IHR Hc) as (e0 & I0 & C0).
+    exists e0. split; [apply in_or_app; now left|exact C0].
+Qed.
+Lemma closed_only_by_close l s : kind K <> OneShot -> reach_by l s -> closed s = true ->
+  In EClose l \/ (accept_survives_oserror (fx K) = false /\ In EAcceptFail l)
+  \/ (accept_survives_spawn_failure (fx K) = false /\ In ESpawnFail l).
+Proof.
+  intros Nk R Hc. destruct (closed_only_by_closing l s Nk R Hc) as (e & I & C).
+  destruct e; cbn in C; try discriminate C.
+  - right; left. split; [now apply negb_true_iff|exact I].
+  - right; right. split; [now apply negb_true_iff|exact I].
+  - left; exact I.
 Qed.
 Theorem accept_stays_enabled l s : kind K <> OneShot -> reach_by l s -> ~ In EClose l ->
-  (accept_survives_oserror (fx K) = true \/ ~ In EAcceptFail l) -> busy s = None -> backlog s <> [] ->
+  (accept_survives_oserror (fx K) = true \/ ~ In EAcceptFail l) ->
+  (accept_survives_spawn_failure (fx K) = true \/ ~ In ESpawnFail l) -> busy s = None -> backlog s <> [] ->
   exists s', step EAccept s = Some s'.
 Proof.
-  intros Nk R Nc Nf Hb Hq. assert (I : Inv s) by (eapply inv_reach_by; eassumption). destruct I as (I1 & _ & _).
+  intros Nk R Nc Nf Ns Hb Hq. assert (I : Inv s) by (eapply inv_reach_by; eassumption). destruct I as (I1 & _ & _).
   assert (Hc : closed s = false).
-  { destruct (closed s) eqn:E; [|reflexivity]. exfalso. destruct (closed_only_by_close l s Nk R E) as [A|[A B]]; [auto|].
-    destruct Nf as [Nf|Nf]; [congruence|auto]. }
+  { destruct (closed s) eqn:E; [|reflexivity]. exfalso. destruct (closed_only_by_close l s Nk R E) as [A|[[A B]|[A B]]]; [auto| |].
+    - destruct Nf as [Nf|Nf]; [congruence|auto].
+    - destruct Ns as [Ns|Ns]; [congruence|auto]. }
   pose proof (i_closed _ I1) as A. pose proof (i_lopen _ I1) as B. rewrite Hc in A.
   assert (Ha : active s = true) by (destruct (active s); [reflexivity|discriminate]).
   unfold Server.step. destruct (backlog s); [congruence|]. rewrite B, Ha, Hb. cbn. eauto.
@@ -1466,12 +1539,14 @@ Proof.
   - match goal with |- context [if (gone ?k && ?m) then _ else _] => destruct (gone k && m) end; [reflexivity|]. destruct (has_auth K); [destruct (abeh (conns t c))|]; reflexivity.
   - destruct (fork_parent_keeps (fx K)); reflexivity.
 Qed.
+Lemma workers_spawn_fail c rest t : workers (spawn_fail K c rest t) = workers t.
+Proof. unfold spawn_fail. destruct (accept_survives_spawn_failure (fx K)); rewrite ?sc_workers, workers_finish_own, workers_accept; reflexivity. Qed.
 Lemma no_dead_step s e s' : pool_catches_base (fx K) = true -> no_dead_worker s -> step e s = Some s' -> no_dead_worker s'.
 Proof.
   intros Hf ND H.
   step_cases H; try congruence; unfold no_dead_worker in *; intros w' c';
   try (destruct (accept_survives_oserror (fx K)));
-  rewrite ?workers_finish_own, ?workers_drop, ?workers_accept, ?sc_workers; cbn [workers set_conn with_backlog with_pool with_busy pool_reject with_clients set_worker enqueue add_inactive track_served];
+  rewrite ?workers_spawn_fail, ?workers_finish_own, ?workers_drop, ?workers_accept, ?sc_workers; cbn [workers set_conn with_backlog with_pool with_busy pool_reject with_clients set_worker enqueue add_inactive track_served];
   rewrite ?so_workers; try apply ND.
   all: cbn [workers set_conn with_conns].
   all: match goal with |- nth_error (set_nth ?w _ _) _ <> _ =>
@@ -1511,6 +1586,34 @@ Theorem accept_error_refuted : kind K = Threaded -> has_auth K = false -> accept
 Proof.
   intros Kp Ha Hf. eexists. split.
   - cbn. unfold accept, Server.work, track_served, loose. cbn. repeat (progress (rewrite ?Kp, ?Ha, ?Hf; cbn)). reflexivity.
+  - unfold server_close. cbn. rewrite ?Kp. cbn. repeat split.
+Qed.
+
+(* ---- a worker (thread, child process) that cannot be started ---- *)
+(* on a tree that guards _accept_method: the failure costs that client and nobody else; the loop goes on *)
+Theorem spawn_failure_costs_one s c rest s' : kind K <> OneShot -> accept_survives_spawn_failure (fx K) = true ->
+  backlog s = c :: rest -> step ESpawnFail s = Some s' ->
+  closed s' = closed s /\ (forall x, x <> c -> conns s' x = conns s x)
+  /\ stg (conns s' c) = Finished /\ shut (conns s' c) = true /\ authd (conns s' c) = authd (conns s c) /\ hooks (conns s' c) = hooks (conns s c)
+  /\ mem c (clients s') = false /\ workers s' = workers s.
+Proof.
+  intros Nk Hf Hb H. unfold Server.step in H. rewrite Hb in H.
+  destruct (active s && lopen s && is_none (busy s) && spawns K) eqn:G; [|discriminate H]. injection H as <-.
+  apply andb_prop in G. destruct G as [_ Hsp].
+  split; [apply spawn_fail_closed; assumption|]. split; [intros x Nx; apply spawn_fail_other; assumption|].
+  rewrite workers_spawn_fail. unfold spawn_fail. rewrite Hf, finish_own_eq.
+  assert (Ec := accept_spawns_conn s c rest Hsp).
+  destruct (kind K) eqn:Ek; try congruence; try (unfold spawns in Hsp; rewrite Ek in Hsp; discriminate Hsp);
+  unfold fo_core; cbn [conns clients with_clients set_conn with_conns]; rewrite upd_same, Ec, mem_rm_same; cbn; repeat split; reflexivity.
+Qed.
+(* refutation on a tree without the guard: one served client, a second one connects while no thread can be started: the server is
+   closed although nobody called close(), and the first client has been thrown out *)
+Theorem spawn_failure_refuted : kind K = Threaded -> has_auth K = false -> accept_survives_spawn_failure (fx K) = false ->
+  exists s, exec [EConnect 1 AuthOk; EAccept; EWork 1; EConnect 2 AuthOk; ESpawnFail] (init K) = Some s
+    /\ closed s = true /\ active s = false /\ shut (conns s 1) = true /\ authd (conns s 1) = true /\ gone (conns s 1) = false.
+Proof.
+  intros Kp Ha Hf. eexists. split.
+  - cbn. unfold spawns, spawn_fail, finish_own, accept, Server.work, track_served, loose. cbn. repeat (progress (rewrite ?Kp, ?Ha, ?Hf; cbn)). reflexivity.
   - unfold server_close. cbn. rewrite ?Kp. cbn. repeat split.
 Qed.
 
@@ -1640,7 +1743,8 @@ Definition kill_frame : list byte := [x00; x00; x00; x01; x00; x4b; x0a].
 Definition k_decode (b : list byte) : option req := if bytes_eqb b [x51] then Some QRoot else if bytes_eqb b [x4b] then Some QKill else None.
 Definition k_facts (caught : bool) : facts :=
   {| pool_close_drops := true; pool_fail_discards := true; fork_parent_keeps := false; pool_catches_base := caught;
-     worker_tracks_served := true; accept_survives_oserror := true; accept_rechecks_closed := true |}.
+     worker_tracks_served := true; accept_survives_oserror := true; accept_rechecks_closed := true;
+     accept_survives_spawn_failure := true |}.
 Definition kill_history : list event :=
   [EConnect 1 AuthOk; EConnect 2 AuthOk; EConnect 3 AuthOk; EAccept; EAccept; EAccept;
    ESend 1 kill_frame; EPoll 1 false; ETake 0; EServe 0; ESend 2 kill_frame; EPoll 2 false; ETake 1; EServe 1;
